@@ -330,7 +330,7 @@ func TestCheck(t *testing.T) {
 	mine := func() bool { idx++; return cfg.Mine(idx) }
 
 	// (1) constants x all 65536 word values on every path
-	nconst := cfg.N(512, 65536)
+	nconst := cfg.N(2048, 65536)
 	for i := 0; i < nconst; i++ {
 		c := uint16(i)
 		if !cfg.Thorough() {
@@ -423,7 +423,7 @@ func TestCheck(t *testing.T) {
 	}
 
 	// (5) generated cases
-	cfg.SetRapid(cfg.N(1500, 40000), 1)
+	cfg.SetRapid(cfg.N(4000, 40000), 1)
 	rapid.Check(t, func(rt *rapid.T) {
 		var n int
 		switch rapid.IntRange(0, 5).Draw(rt, "nclass") {
